@@ -14,7 +14,8 @@ from parallel import driver_parallel  # noqa: E402
 
 GEN = ['DateK', 'Calendar']
 PROPS = ['FinVerif.Props.C14a', 'FinVerif.Props.C14b', 'FinVerif.Props.C14c', 'FinVerif.Props.C14d', 'FinVerif.Props.C14e',
-         'FinVerif.Props.C14f', 'FinVerif.Props.C14g', 'FinVerif.Props.C14h', 'FinVerif.Props.C14i', 'FinVerif.Props.C14j']
+         'FinVerif.Props.C14f', 'FinVerif.Props.C14g', 'FinVerif.Props.C14h', 'FinVerif.Props.C14i', 'FinVerif.Props.C14j',
+         'FinVerif.Props.C14k', 'FinVerif.Props.C14l']
 DRIVERS = ['FinVerif.Driver.C14']
 SPEC_DRIVERS = ['FinVerif.Driver.C14Spec']
 
@@ -128,7 +129,10 @@ def run(ctx):
         else:
             sel = cands
         # plus some business days (identity) and NONE calendar; and the last day of the domain (corpus)
-        sel = sel + [rng.choice(all_dmy) for _ in range(200)] + [(31, 12, 2199), (1, 1, 1901)]
+        # ... and the two ends of the domain that Props/C14l settles by case analysis (last 9 days of 2199 for forward
+        # walks, first 10 days of 1901 for backward walks): every calendar x convention, on every run
+        edge = [(d, 12, 2199) for d in range(23, 32)] + [(d, 1, 1901) for d in range(1, 11)]
+        sel = sorted(set(sel) - set(edge)) + [rng.choice(all_dmy) for _ in range(200)] + edge
         for cv in convs:
             for t in sel:
                 dt = date_of(t)
@@ -252,7 +256,7 @@ def run(ctx):
 
     ctx.assumptions += [
         'rule lists in FinVerif/Spec/Calendar.lean are a reading of the named rules in calendar.py; agreement with real-world public holidays is not claimed',
-        'termination of the adjust walk is proved for all 15 calendars for held dates of 1917..2197 (Props/C14g, C14h: at most 10 evaluations); for the remaining years of 1901..2199 it is validated by the exhaustive correspondence',
+        'termination of the adjust walk is proved for all 15 calendars on the whole domain 1901-01-01..2199-12-31 (Props/C14k, C14l: at most 10 evaluations; the FOLLOWING walk leaves 2199 exactly for SWEDEN from 31 Dec 2199); termination of add_business_days is proved with room for 10|n|+1 days inside 1917..2197 (Props/C14j) and validated by the correspondence elsewhere',
         'the date table was extended to 2201 before the run (table-extension history is decided under C13/C18)',
     ]
     return C.finish(ctx, 'proof',
@@ -281,8 +285,12 @@ def compare(ctx, comp, ops, impl, drivers_ok, spec_ok, nontriv, exhaustive=False
             fnd = None
             sp = spec[i].split()
             q = op.split()
-            crosses = (len(sp) == 3 and sp[2].isdigit() and int(sp[2]) >= 2200) or \
-                (op[0] == 'A' and q[-1] == '2199' and q[-2] == '12' and q[2] in ('2', '3', '5'))
+            if op[0] == 'A':
+                # Props/C14l `following_walk_domain`: the forward walk of adjust leaves 2199 EXACTLY for SWEDEN from
+                # 31 Dec 2199 (FOLLOWING, and MODIFIED_FOLLOWING whose first stage is that walk) - nothing else
+                crosses = q[1] == '11' and q[2] in ('2', '3') and q[3:] == ['31', '12', '2199']
+            else:
+                crosses = len(sp) == 3 and sp[2].isdigit() and int(sp[2]) >= 2200
             if impl[i] == 'E:IndexError' and op[0] in 'AN' and crosses:
                 # the walk leaves 2199: the Easter table ends there and the lookup raises IndexError
                 fnd = 'C14/walk-past-2199-easter-table-end'
